@@ -115,7 +115,7 @@ def run(prop, tier, replay=None):
             payload = json.load(f)
         if payload.get("kind") in ("flag-trace", "jobmt-trace"):
             sub_replay, scripts = payload, []
-        elif payload.get("kind") in ("model", "proof"):
+        elif payload.get("kind") in ("model", "proof", "spec-behaviour"):
             scripts = []                     # the model check / the proof above is the replay
         else:
             scripts = [payload["script"]]
@@ -178,6 +178,14 @@ def run(prop, tier, replay=None):
         acc += extra["flag_scenarios_accepted"]
         total += extra["flag_scenarios"]
 
+    if prop == "C09" and not replay:
+        # the other direction: behaviours of the specification (TLC -simulate) replayed on the real job task
+        import jobreplay
+        rviol, rextra = jobreplay.run(prop, tier, rng)
+        violations += rviol
+        extra.update(rextra)
+        acc += rextra["spec_behaviours_agreed"]
+        total += rextra["spec_behaviours_replayed"]
     if prop in ("C10", "C04") and not replay:
         # several concurrent senders on a multi-threaded runtime
         import jobmtcheck
